@@ -177,8 +177,8 @@ structure Obs where
 deriving Repr
 
 structure ObsSt where
-  started : Bool
-  stream : Nat
+  started : Option Bool    -- `none`: not observable in this tree
+  stream : Option Nat
   gor : Nat                -- goroutines in `DestHandler.run` (minus the baseline at reset)
   hs : List Obs
   retired : Nat            -- handlers seen earlier that are no longer listed
@@ -202,12 +202,13 @@ def specState (sp : SpecSt) (o : ObsSt) : Option String :=
   if o.hs.map (·.conf) ≠ sp.cfg then some "listed destinations differ from the configured list (or its order)"
   else if !posOK 0 o.hs then some "handler positions are not 1..n"
   else if !(o.hs.map (·.id)).Nodup then some "the same forwarder is listed twice"
-  else if o.started ≠ sp.avail then some "started flag differs from stream availability"
+  else if o.started.isSome && o.started ≠ some sp.avail then some "started flag differs from stream availability"
   else if sp.avail && !(o.hs.all fun h => h.live && h.api) then
     some "stream available but a configured destination has no running forwarder"
   else if sp.avail && o.gor ≠ o.hs.length then
     some "stream available but the number of forwarder goroutines differs from the number of destinations"
-  else if sp.avail && o.stream ≠ sp.strm then some "manager holds a stream other than the available one"
+  else if sp.avail && o.stream.isSome && o.stream ≠ some sp.strm then
+    some "manager holds a stream other than the available one"
   else if !sp.avail && (o.hs.any fun h => h.live || h.api) then
     some "a forwarder runs while the stream is unavailable"
   else if !sp.avail && o.gor ≠ 0 then some "forwarder goroutines alive while the stream is unavailable"
